@@ -192,7 +192,7 @@ func foreignAtt(r *Result) string {
 }
 
 func init() {
-	register(&propDef{ID: "C15", Gen: genC15, Check: checkC15, Foreign: foreignAtt,
+	register(&propDef{ID: "C15", Gen: genC15, Check: withCrashRule("C15", checkC15),
 		Interesting: func(r *Result) bool {
 			for _, e := range r.Hist {
 				if e.K == KFile && e.Stage == 5 {
